@@ -42,6 +42,13 @@ def generate(rng, tier, idx):
         ops.append({"op": "im_downgrade", "path": path, "version": pick(rng, ["1.0", "1.1", "1.0"]),
                     "src_variants": pick(rng, ["all", subset(rng, variants, 0, len(variants))]), "tag": "C10", "drop_empty": rng.random() < 0.4, "empty_src": rng.random() < 0.4})
         ops.append({"op": "restart", "path": path, "via": pick(rng, ["path", "handle", "loads"]), "offset": rng.randint(0, 500)})
+        if rng.random() < 0.5:
+            # the object that went through the legacy load is then offered images under a source / unknown arch: refused as ever
+            for k in range(rng.randint(1, 3)):
+                img = gen_im.gen_image(rng, 800 + k, arch="src")
+                img["path"] = "post/legacy/src-%d.iso" % k
+                ops.append({"op": "img_new", "iid": 8000 + k, "attrs": img})
+                ops.append({"op": "img_add", "variant": pick(rng, variants or ["Server"]), "arch": pick(rng, ["src", "src", "nosrc", "x86"]), "iid": 8000 + k})
         ops.append({"op": "dump", "path": path})
         ops.append({"op": "restart", "path": path, "via": "path"})
         if rng.random() < 0.5:
